@@ -18,17 +18,18 @@ enum { PUSH = 0, POP = 1, PUSH_FRONT = 2, POP_BACK = 3, BARRIER = 4 };
 static const char* const opnames[] = {"push", "pop", "push_front", "pop_back", "barrier", nullptr};
 
 // ---- SMR set-up policies (constructed on simulated thread 0, destroyed at the end of the run)
-struct SmrNone { explicit SmrNone(const Program&) {} static void eager() {} static const char* name() { return "none"; } };
+struct SmrNone { explicit SmrNone(const Program&) {} static void eager() {} static void detach() { cds::threading::Manager::detachThread(); } static const char* name() { return "none"; } };
 struct SmrHP {
     std::unique_ptr<cds::gc::HP> gc;
     explicit SmrHP(const Program& p) { gc.reset(new cds::gc::HP((size_t)p.knob("hp_H", 8), (size_t)p.knob("hp_T", 8), (size_t)p.knob("hp_R", 0), p.knob("hp_classic") ? cds::gc::HP::scan_type::classic : cds::gc::HP::scan_type::inplace)); }
-    static void eager() { cds::gc::HP::force_dispose(); }
+    static void eager() { vh::EagerPass ep; cds::gc::HP::force_dispose(); }
+    static void detach() { vh::EagerPass ep; cds::threading::Manager::detachThread(); }   // detaching scans too
     static const char* name() { return "HP"; }
 };
 struct SmrDHP {
     std::unique_ptr<cds::gc::DHP> gc;
     explicit SmrDHP(const Program& p) { gc.reset(new cds::gc::DHP((size_t)p.knob("dhp_init", 16))); }
-    static void eager() { cds::gc::DHP::force_dispose(); }
+    static void eager() { vh::EagerPass ep; cds::gc::DHP::force_dispose(); } static void detach() { vh::EagerPass ep; cds::threading::Manager::detachThread(); }
     static const char* name() { return "DHP"; }
 };
 template <class GC> struct SmrOf;
@@ -97,7 +98,7 @@ template <class A> void run(Ctx& ctx) {
                 ctx.end_op(h, ok, v);
                 if (eager && dsim::decide(dsim::D_EAGER, eager)) { A::Smr::eager(); ctx.probe("F10_eager_reclaim"); }
             },
-            [&](int) { cds::threading::Manager::detachThread(); });
+            [&](int) { A::Smr::detach(); });
         // quiescent drain, recorded as part of the history
         for (int k = 0; k < 64; k++) { o = Op(); o.id = nid++; o.kind = POP; int h = ctx.begin_op(99, o); long v = -1; bool ok = a.pop(v, 0); ctx.end_op(h, ok, v); if (!ok) break; }
         a.probes(ctx);
